@@ -154,6 +154,26 @@ func runC09(seed uint64, n int, outDir string, replay string) {
 				ans(fmt.Sprint(core.CalcGasLimit(parent, params.LocalGasCeil)))
 				o.Op("limit %d %d %d %d %d %d", params.TimeToStartTx, params.MinGasLimit(pn), params.BlocksPerMonth, params.StateCeil, pn, parent.StateLimit())
 				ans(fmt.Sprint(misc.CalcStateLimit(parent, params.StateCeil)))
+				if rc.Chance(30) {
+					// the same two rules on a parent of any height and limit (a copy of this parent with other numbers): the
+					// first block that may carry gas (parent limit zero), the ramp below and above the floor, past the ramp
+					for k := 0; k < 3; k++ {
+						sp := types.CopyWorkObject(parent)
+						spn := []uint64{params.TimeToStartTx - 1, params.TimeToStartTx, params.TimeToStartTx + 1, 259200, 259201, params.BlocksPerMonth,
+							2*params.BlocksPerMonth - 1, 2 * params.BlocksPerMonth, 3 * params.BlocksPerMonth, uint64(rc.Intn(int(3 * params.BlocksPerMonth)))}[rc.Intn(10)]
+						sp.SetNumber(new(big.Int).SetUint64(spn), common.ZONE_CTX)
+						lim := uint64(0)
+						if rc.Chance(60) {
+							lim = uint64(1 + rc.Intn(40_000_000))
+						}
+						sp.Header().SetGasLimit(lim)
+						sp.Header().SetStateLimit(lim)
+						o.Op("limit %d %d %d %d %d %d", params.TimeToStartTx, params.MinGasLimit(spn), params.BlocksPerMonth, params.LocalGasCeil, spn, lim)
+						ans(fmt.Sprint(core.CalcGasLimit(sp, params.LocalGasCeil)))
+						o.Op("limit %d %d %d %d %d %d", params.TimeToStartTx, params.MinGasLimit(spn), params.BlocksPerMonth, params.StateCeil, spn, lim)
+						ans(fmt.Sprint(misc.CalcStateLimit(sp, params.StateCeil)))
+					}
+				}
 				// minimum base fee and the conversion-flow average: protocol values derived from the parent
 				if pt := hc.GetHeaderByHash(parent.PrimeTerminusHash()); pt != nil && !hc.IsGenesisHash(parent.Hash()) {
 					rate := pt.ExchangeRate()
